@@ -390,24 +390,72 @@ func runC18_5(c *Ctx) {
 
 func runC18_6(c *Ctx) {
 	p := c.P
-	fn := p.Fn(olPkg, "qpsLimiter", "update")
+	upd := p.Fn(olPkg, "qpsLimiter", "update")
 	qN, tIdx := p.FieldIndex(olPkg, "qpsLimiter", "ticker")
 	stop := p.MethodObj(olPkg, "qpsLimiter", "stopTicker")
 	start := p.MethodObj(olPkg, "qpsLimiter", "startTicker")
-	var store ssa.Instruction
-	Instrs(fn, func(i ssa.Instruction) {
-		if st, ok := i.(*ssa.Store); ok && isFieldAddr(st.Addr, qN, tIdx) {
-			store = i
+	// the swap is in update itself or in a same-package helper it calls (depth <= 2)
+	var cands []*ssa.Function
+	seen := map[*ssa.Function]bool{}
+	var rec func(f *ssa.Function, d int)
+	rec = func(f *ssa.Function, d int) {
+		if f == nil || seen[f] || len(f.Blocks) == 0 || d > 2 || f.Pkg != upd.Pkg {
+			return
 		}
-	})
-	stops := CallsTo(fn, stop)
-	var gos []ssa.Instruction
-	Instrs(fn, func(i ssa.Instruction) {
-		if g, ok := i.(*ssa.Go); ok && CalleeObj(g) == start {
-			gos = append(gos, i)
+		seen[f] = true
+		cands = append(cands, f)
+		for _, call := range AllCalls(f) {
+			if _, isGo := call.(*ssa.Go); isGo {
+				continue
+			}
+			rec(call.Common().StaticCallee(), d+1)
 		}
-	})
-	ok := store != nil && len(stops) == 1 && len(gos) == 1 && Dominates(stops[0], store) && Dominates(store, gos[0])
+	}
+	rec(upd, 0)
+	nStores := 0
+	ok := true
+	why := ""
+	for _, fn := range cands {
+		var stores []ssa.Instruction
+		Instrs(fn, func(i ssa.Instruction) {
+			if st, isSt := i.(*ssa.Store); isSt && isFieldAddr(st.Addr, qN, tIdx) {
+				stores = append(stores, i)
+			}
+		})
+		if len(stores) == 0 {
+			continue
+		}
+		nStores += len(stores)
+		// the edge on which the limiter has no ticker yet needs no stop
+		nilEdge := map[[2]*ssa.BasicBlock]bool{}
+		for _, e := range NilCmpEdges(fn, func(v ssa.Value) bool { return isFieldLoad(v, qN, tIdx) }) {
+			nilEdge[[2]*ssa.BasicBlock{e.If.Block(), e.Nil}] = true
+		}
+		for _, st := range stores {
+			target := st
+			reach := p.ReachableFromBlock(fn.Blocks[0], func(i ssa.Instruction) bool { return i == target }, func(i ssa.Instruction) bool { return IsCallTo(i, stop) },
+				func(b *ssa.BasicBlock, si int) bool { return !nilEdge[[2]*ssa.BasicBlock{b, b.Succs[si]}] })
+			if len(reach) > 0 {
+				ok, why = false, "the ticker field of "+FnName(fn)+" can be replaced without stopTicker() on a path where a ticker exists"
+			}
+			passes, _ := p.MustPassBeforeExit(st, func(i ssa.Instruction) bool {
+				g, isGo := i.(*ssa.Go)
+				return isGo && CalleeObj(g) == start
+			}, nil)
+			if !passes {
+				ok, why = false, "after the new ticker is installed in "+FnName(fn)+" a path returns without starting the refill goroutine"
+			}
+			// no refill goroutine between the stop and the store (it would read the old ticker's channel)
+			for _, call := range AllCalls(fn) {
+				if g, isGo := call.(*ssa.Go); isGo && CalleeObj(g) == start && Dominates(g, st) {
+					ok, why = false, "the refill goroutine is started before the new ticker is installed"
+				}
+			}
+		}
+	}
+	if nStores == 0 {
+		ok, why = false, "update (and its helpers) never install a new ticker"
+	}
 	// stopTicker stops the limiter's current ticker
 	st := p.Fn(olPkg, "qpsLimiter", "stopTicker")
 	stopsOwn := false
@@ -416,8 +464,11 @@ func runC18_6(c *Ctx) {
 			stopsOwn = true
 		}
 	}
-	c.fact("dominance")
-	c.Check(ok && stopsOwn, "qpsLimiter.update swaps tickers in order", p.Pos(fn.Pos()), "stopTicker() -> q.ticker = NewTicker -> go startTicker()", "qpsLimiter.update does not stop the old ticker before installing the new one (or starts the refill goroutine before/without it): the old refill goroutine keeps adding tokens at the old interval - the bucket refills far faster than configured")
+	if !stopsOwn {
+		ok, why = false, "stopTicker does not stop the limiter's own ticker"
+	}
+	c.fact("path-search")
+	c.Check(ok, "qpsLimiter.update swaps tickers in order", p.Pos(upd.Pos()), "stopTicker() -> q.ticker = NewTicker -> go startTicker() (in update or its helper)", "qpsLimiter.update does not stop the old ticker before installing the new one (or starts the refill goroutine before/without it) - "+why+": the old refill goroutine keeps adding tokens at the old interval - the bucket refills far faster than configured")
 }
 
 func runC18_7(c *Ctx) {
